@@ -143,6 +143,11 @@ type CertificateValidity struct {
 	Until    time.Time
 	IsStatic bool //does it have an explicit "from"?
 	IsSet    bool //if false, it should inherit default values
+
+	//How the end was given when there is no explicit "from": as an explicit
+	//"until" date, or as the Duration that was added to the time of parsing.
+	IsUntilStatic bool   `json:",omitempty"`
+	Duration      string `json:",omitempty"`
 }
 
 type Manipulations struct {
@@ -161,7 +166,9 @@ func (c CertificateContent) HashSum() []byte {
 	//c is not a pointer, so this change is temporary
 	if !c.Validity.IsStatic || !c.Validity.IsSet {
 		c.Validity.From = time.Time{}
-		c.Validity.Until = time.Time{}
+		if !c.Validity.IsUntilStatic {
+			c.Validity.Until = time.Time{}
+		}
 	}
 	c.Profile = ""
 	c.Alias = ""
